@@ -65,7 +65,8 @@ fn parse_cfg_if_inner<'a>(
         {
             let item = match parser.parse_item(ForceCollect::No) {
                 Ok(Some(item_ptr)) => item_ptr.into_inner(),
-                Ok(None) => continue,
+                // Not an item, and nothing was consumed: give up instead of asking again forever.
+                Ok(None) => return Err("Expected item inside cfg_if block"),
                 Err(err) => {
                     err.cancel();
                     parser.psess.dcx().reset_err_count();
